@@ -145,6 +145,17 @@ func VerifReset() {
 	verifEvMu.Unlock()
 }
 
+// VerifResetPools replaces the pools by empty ones and forgets the tracked objects, keeping the
+// observations. The harness calls it after a recovered panic when it wants later cases of the same
+// process to start from clean pools. Call it at a quiescent point only.
+func VerifResetPools() {
+	resetPools()
+	verifObjs.Range(func(k, _ any) bool {
+		verifObjs.Delete(k)
+		return true
+	})
+}
+
 // VerifSnapshot reports what the monitors observed since the last VerifReset.
 func VerifSnapshot() VerifStats {
 	st := VerifStats{
